@@ -8,6 +8,7 @@
 int gh_lc_phase, g_pending, g_bad, g_lost, g_emitted, g_raw_emitted, g_noout, g_load_failed, g_written;
 int w_abidw_tail(int noout, int do_log, int out_path_empty, int corp_null);
 int w_abilint_main(void);
+int w_abidw_kernel_tail(int noout, int do_log, int out_path_empty);
 #define POST(c) __CPROVER_assert(c, "postcondition: " #c)
 static void fresh(void) {g_pending = 0; g_bad = 0; g_lost = 0; g_emitted = 0; g_raw_emitted = 0; g_noout = 0; g_load_failed = 0; g_written = 0;}
 
@@ -20,6 +21,16 @@ void h_abidw_tail(void)
   POST((r == 0 && !in_noout) ==> g_written);          /* success means the corpus was written */
   POST(in_noout ==> (r == 0 && !g_written));
   CANARY_h_abidw_tail;
+}
+void h_abidw_kernel_tail(void)
+{
+  fresh();
+  int in_noout = nondet_int(), in_log = nondet_int(), in_nopath = nondet_int();
+  int r = w_abidw_kernel_tail(in_noout, in_log, in_nopath);
+  POST(r == 0 ==> (!g_lost && !g_pending));
+  POST((r == 0 && !in_noout) ==> g_written);
+  POST(in_noout ==> (r == 0 && !g_written));
+  CANARY_h_abidw_kernel_tail;
 }
 void h_abilint_main(void)
 {
